@@ -3,7 +3,8 @@ EXTENDS AsmSizing
 CONSTANTS MaxN, Fillers
 VARIABLES prog, st
 vars == <<prog, st>>
-Items(n) == [k : {"fix"}, sz : Fillers, tgt : {0}, base : {0}] \cup [k : {"pcr"}, sz : {0}, tgt : 1..n, base : {2, 3}]
+Items(n) == {[k |-> "fix", sz |-> f, tgt |-> 0, base |-> 0, mx |-> f] : f \in Fillers} \cup {[k |-> "fix", sz |-> 3, tgt |-> 0, base |-> 0, mx |-> 2]}
+            \cup [k : {"pcr"}, sz : {0}, tgt : 1..n, base : {2, 3}, mx : {0}]
 Progs == UNION {{p \in [1..n -> Items(n)] : \E i \in 1..n : p[i].k = "pcr"} : n \in 1..MaxN}
 Init == prog \in Progs /\ st = Init0(prog)
 Next == st.phase # "done" /\ st' = Step(prog, st) /\ UNCHANGED prog
